@@ -126,4 +126,52 @@ def indexOf {α : Type} [BEq α] (xs : List α) (v : α) : Int := ((xs.idxOf v :
     the memory contained (a store `xs[k] = v` into every position, as the translated loops do, makes it disappear). -/
 opaque uninit (site pos : Int) : Rat
 
+/-- (C09) `math.factorial(n)` (Python ints are unbounded) and, read as a float, `scipy.special.factorial(n)`; for a negative
+    argument `math.factorial` raises ValueError and scipy returns 0: here the value is 0 -/
+def factNat : Nat → Nat
+  | 0 => 1
+  | n + 1 => (n + 1) * factNat n
+def factorial (n : Int) : Int := if n < 0 then 0 else (factNat n.toNat : Int)
+
+/-- (C09) the type of an `np.arange(..)` result.  numpy's FIXED-WIDTH integers are not modelled (int64 arithmetic wraps around,
+    `Int` does not): the translator gives such an array this type of its own and accepts it only where numpy produces floats
+    from it without integer arithmetic (`np.power(<float>, ks)`, `<float> ** ks`, `scipy.special.factorial(ks)`); every other
+    use is Untranslatable. -/
+abbrev I64Array := List Int
+
+/-! (C07) numpy statistics and products.  A 2-d array is the list of its rows (`List (List Rat)`; rectangular: a hypothesis of
+  the theorems), a 3-d array a list of those.
+  `mean`       `np.mean(xs)`: sum / number of entries (numpy gives nan for an empty array; here 0: `x / 0 = 0`).
+  `cov a b d`  the entry of `np.cov`: Σ (a_i − mean a)(b_i − mean b) / (n − d), `d` = numpy's `ddof` (`bias=True`: 0, default: 1);
+               numpy clips the divisor at 0 and warns when n ≤ d: outside the domain of the theorems.
+  `var xs d`   `np.var(xs, ddof=d)` = `cov xs xs d`; `np.std` is `np.sqrt` of it (the translator applies the `sqrt` parameter).
+  `covMatrix`  `np.cov` of variables given as rows;  `meanAxis0 / varAxis0`: `axis=0` reductions (one value per column);
+  `dot`, `matVec` (`m @ v`, `np.dot(m, v)`), `vecMat` (`np.dot(v, m)`); numpy raises on a shape mismatch where `zipWith` truncates.
+  `size2`      `m.size`;  `rminList / rmaxList`: `np.amin / np.amax` of all entries (numpy raises for an empty array; here 0);
+  `setCol`     the array after `m[:, k] = v`;  `emptyLike2`: `np.empty_like(m)` — content: the opaque `uninit2`. -/
+
+def mean (xs : List Rat) : Rat := xs.sum / ((xs.length : Nat) : Rat)
+def cov (xs ys : List Rat) (ddof : Int) : Rat :=
+  (List.zipWith (fun (x y : Rat) => (x - mean xs) * (y - mean ys)) xs ys).sum / ((((xs.length : Nat) : Int) - ddof : Int) : Rat)
+def var (xs : List Rat) (ddof : Int) : Rat := cov xs xs ddof
+def covMatrix (rows : List (List Rat)) (ddof : Int) : List (List Rat) :=
+  rows.map (fun r => rows.map (fun s => cov r s ddof))
+def meanAxis0 (m : List (List Rat)) : List Rat := (transpose m).map mean
+def varAxis0 (m : List (List Rat)) (ddof : Int) : List Rat := (transpose m).map (fun c => var c ddof)
+def dot (a b : List Rat) : Rat := (List.zipWith (fun (x y : Rat) => x * y) a b).sum
+def matVec (m : List (List Rat)) (v : List Rat) : List Rat := m.map (fun r => dot r v)
+def vecMat (v : List Rat) (m : List (List Rat)) : List Rat := (transpose m).map (fun c => dot v c)
+def size2 (m : List (List Rat)) : Int := (((m.map List.length).sum : Nat) : Int)
+def rminList : List Rat → Rat
+  | [] => 0
+  | x :: xs => xs.foldl rmin x
+def rmaxList : List Rat → Rat
+  | [] => 0
+  | x :: xs => xs.foldl rmax x
+def setCol (m : List (List Rat)) (k : Int) (v : List Rat) : List (List Rat) :=
+  List.zipWith (fun (r : List Rat) (x : Rat) => setAt r k x) m v
+opaque uninit2 (site row col : Int) : Rat
+def emptyLike2 (site : Int) (m : List (List Rat)) : List (List Rat) :=
+  (enumerate m).map (fun (p : Int × List Rat) => (enumerate p.2).map (fun (q : Int × Rat) => uninit2 site p.1 q.1))
+
 end Rpylib.Py
